@@ -31,8 +31,30 @@ FIXTURE = {
 }
 
 
+PKG = "c16app.sub"          # generated package-mode targets live in this package
+
+
+def _pkg_fixture():
+    """package-relative modules whose tails coincide with the absolute fixture modules (other classes, same API)"""
+    def variant(text, tag, off):
+        return text.replace("'shapes.", f"'{tag}.shapes.").replace("self.r = r\n", f"self.r = r + {off}\n") \
+                   .replace("'Point(", f"'{tag}.Point(").replace("self.x = x\n", f"self.x = x + {off}\n")
+    return {
+        "c16app/__init__.py": "",
+        "c16app/shapes.py": variant(FIXTURE["shapes.py"], "c16app", 1000),
+        "c16app/sub/__init__.py": "",
+        "c16app/sub/shapes.py": variant(FIXTURE["shapes.py"], "c16app.sub", 2000),
+        "c16app/sub/geo/__init__.py": "",
+        "c16app/sub/geo/pts.py": variant(FIXTURE["geo/pts.py"], "c16app.sub.geo", 3000),
+    }
+
+
+def mod_path(root, modname):
+    return os.path.join(root, *modname.split(".")) + ".py"
+
+
 def write_fixture(root):
-    for rel, text in FIXTURE.items():
+    for rel, text in list(FIXTURE.items()) + list(_pkg_fixture().items()):
         p = os.path.join(root, rel)
         os.makedirs(os.path.dirname(p), exist_ok=True)
         with open(p, "w") as f:
@@ -43,17 +65,17 @@ def write_fixture(root):
 IMPORT_POOL = [
     ("import shapes", "shapes.area(shapes.Circle(3))", "tmfyYFI"),
     ("import shapes as sh", "sh.Square(2).side", "tmf"),
-    ("from shapes import Circle", "Circle(1).r", "tmfcyYFI"),
+    ("from shapes import Circle", "Circle(1).r", "tmfcyYFIE"),
     ("from shapes import Circle as C", "C(2).r", "tmfccF"),
     ("from shapes import Square, Circle", "Square(1).side + Circle(1).r", "tmf"),
     ("from shapes import Circle as Ci, Square", "Ci(1).r + Square(2).side", "tmc"),
-    ("from shapes import Square", "Square(5).side", "tmfcY"),
+    ("from shapes import Square", "Square(5).side", "tmfcYE"),
     ("from shapes import *", "area(Square(2))", "tm"),
     ("import geo.pts", "geo.pts.Point(1, 2).x", "tmf"),
     ("import geo.pts as gp", "gp.Point(3, 4).y", "tm"),
     ("import geo", None, "tm"),
     ("from geo import pts", "pts.Point(5, 6).x", "tmf"),
-    ("from geo.pts import Point", "Point(7, 8).y", "tmfcyYFI"),
+    ("from geo.pts import Point", "Point(7, 8).y", "tmfcyYFIE"),
     ("from geo.pts import Point as P", "P(9, 1).x", "tmfccY"),
     ("import os", "os.sep", "tmf"),
     ("import os.path", "os.path.basename('a/b')", "tm"),
@@ -64,16 +86,48 @@ IMPORT_POOL = [
     ("import typing", "typing.TYPE_CHECKING", "tm"),
     ("from typing import *", "Optional is not None", "tm"),
     ("from other import Circle", "Circle(4).r", "tmfc"),
-    ("from other import Thing", "Thing(1).v", "tmfcYF"),
+    ("from other import Thing", "Thing(1).v", "tmfcYFE"),
     ("from other import Thing as Circle", "Circle(1).v", "tfc"),
     ("import other", "other.Thing(2).v", "tmf"),
     ("from mypy_extensions import TypedDict", "TypedDict is not None", "tm"),
     ("import typings", "typings.Payload(1).v", "tmf"),
-    ("from typings import Payload", "Payload(2).v", "tmfcYI"),
+    ("from typings import Payload", "Payload(2).v", "tmfcYIE"),
     ("from typing_helpers import Helper as H", "H(3).v", "tmc"),
     ("import typing_helpers", "typing_helpers.Helper(4).v", "tm"),
     ("from mypy_extensions_compat import Compat", "Compat(5).v", "tmf"),
 ]
+
+# relative imports: only for targets generated inside the package PKG
+REL_POOL = [
+    ("from .shapes import Circle", "Circle(1).r", "tmf"),
+    ("from .shapes import Circle as C", "C(1).r", "tm"),
+    ("from . import shapes", "shapes.area(shapes.Circle(2))", "tm"),
+    ("from ..shapes import Circle", "Circle(1).r", "tmf"),
+    ("from ..shapes import Square, Circle", "Square(1).side + Circle(1).r", "tm"),
+    ("from .. import shapes", "shapes.area(shapes.Square(3))", "tm"),
+    ("from .geo.pts import Point", "Point(1, 2).x", "tmf"),
+    ("from .geo import pts", "pts.Point(1, 2).y", "tm"),
+]
+
+# hand-written stubs whose new imports carry aliases (MonkeyType's generator never emits them; the property is about the
+# confinement step): function -> (import statement, signature)
+ALIAS_STUBS = {
+    "area_of": ("from shapes import Circle as Ci", "def area_of(c: Ci) -> int: ..."),
+    "origin": ("import geo.pts as gp", "def origin(p: gp.Point) -> gp.Point: ..."),
+    "thing": ("from other import Thing as T", "def thing(t: T) -> T: ..."),
+    "helper": ("import typing_helpers as th", "def helper(h: th.Helper, n: int = ...) -> th.Helper: ..."),
+    "payload": ("from typings import Payload as Pl", "def payload(p: Pl) -> int: ..."),
+}
+
+
+def alias_stub(funcs):
+    imps, defs = [], []
+    for nm in funcs:
+        i, d = ALIAS_STUBS[nm]
+        imps.append(i)
+        defs.append(d)
+    return "\n".join(sorted(imps)) + "\n\n\n" + "\n\n\n".join(defs) + "\n"
+
 
 # functions the stub annotates: name -> (source text, argument types, return type, call in run())
 def func_pool(fx):
@@ -113,12 +167,13 @@ def func_pool(fx):
 MK = ("def _mk(mod, cls, *a):\n    m = __import__(mod, fromlist=['_'])\n    return getattr(m, cls)(*a)\n")
 
 
-def gen_source(rnd, fx, directed=None, funcs=None, minimal=False):
+def gen_source(rnd, fx, directed=None, funcs=None, minimal=False, package=False):
     """Returns dict(text, funcs=[names], desc).  `directed`: list of (statement, placement) forced in;
     `minimal`: nothing random besides."""
     pool = func_pool(fx)
-    lines, helpers, usages, tc_block, desc = [], [], [], [], []
+    lines, helpers, usages, tc_block, tc_else, desc = [], [], [], [], [], []
     head = []
+    import_pool = IMPORT_POOL + (REL_POOL * 3 if package else [])
     if not minimal and rnd.random() < 0.3:
         head.append('"""Module docstring."""')
         desc.append("docstring")
@@ -131,12 +186,12 @@ def gen_source(rnd, fx, directed=None, funcs=None, minimal=False):
         desc.append("future-annotations")
     picks = list(directed or [])
     for _ in range(0 if minimal else rnd.choice([0, 1, 1, 2, 2, 3, 4])):
-        st, use, places = rnd.choice(IMPORT_POOL)
+        st, use, places = rnd.choice(import_pool)
         picks.append((st, rnd.choice(places)))
     if not minimal:
         rnd.shuffle(picks)
     top, mid = [], []
-    use_of = {st: use for st, use, _ in IMPORT_POOL}
+    use_of = {st: use for st, use, _ in IMPORT_POOL + REL_POOL}
     for n, (st, place) in enumerate(picks):
         use = use_of.get(st)
         desc.append(f"{place}:{st}")
@@ -154,6 +209,10 @@ def gen_source(rnd, fx, directed=None, funcs=None, minimal=False):
             usages.append(f"_h{n}()")
         elif place == "c":
             tc_block.append(st)
+        elif place == "E":      # run-time fallback in the else branch of the TYPE_CHECKING statement
+            tc_else.append(st)
+            if use:
+                usages.append(use)
         elif place == "y":
             nm = st.split()[-1]
             mid.append(f"try:\n    {st}\nexcept ImportError:\n    {nm} = None")
@@ -172,7 +231,7 @@ def gen_source(rnd, fx, directed=None, funcs=None, minimal=False):
             mid.append(f"if LIMIT: {st}")
             if use:
                 usages.append(use)
-    if tc_block:
+    if tc_block or tc_else:
         if rnd.random() < 0.5:
             top.append("from typing import TYPE_CHECKING")
             tc_head = "if TYPE_CHECKING:"
@@ -183,8 +242,16 @@ def gen_source(rnd, fx, directed=None, funcs=None, minimal=False):
     if mid or (not minimal and rnd.random() < 0.3):
         lines.append("LIMIT = 10")
     lines += mid
-    if tc_block:
-        lines.append(tc_head + "\n" + "\n".join("    " + s for s in tc_block))
+    if tc_block or tc_else:
+        stmt = tc_head + "\n" + "\n".join("    " + s for s in (tc_block or ["pass"]))
+        if tc_else:
+            if len(tc_else) > 1 and rnd.random() < 0.4:
+                stmt += "\nelif LIMIT:\n    " + tc_else[0] + "\nelse:\n" + "\n".join("    " + s for s in tc_else[1:])
+                if not mid:
+                    lines.append("LIMIT = 10")
+            else:
+                stmt += "\nelse:\n" + "\n".join("    " + s for s in tc_else)
+        lines.append(stmt)
     if funcs is not None:
         names = list(funcs)
     else:
@@ -211,7 +278,7 @@ def make_stub(modname, fx_root, src, rnd, fx, k):
     """Render the stub with MonkeyType's own stub builder from synthetic call traces of the source's functions."""
     from monkeytype.tracing import CallTrace
     from monkeytype.stubs import build_module_stubs_from_traces
-    path = os.path.join(fx_root, modname + ".py")
+    path = mod_path(fx_root, modname)
     with open(path, "w") as f:
         f.write(src["text"])
     importlib.invalidate_caches()
@@ -362,6 +429,18 @@ def reify_module(text):
         elif isinstance(st, ast.If) and _is_tc_test(st.test) and not st.orelse and \
                 all(isinstance(b, (ast.Import, ast.ImportFrom, ast.Pass)) for b in st.body):
             out.append("SIfTC %s" % coq_list(reify_imp(b) for b in st.body if not isinstance(b, ast.Pass)))
+        elif isinstance(st, ast.If) and _is_tc_test(st.test) and st.orelse and \
+                all(isinstance(b, (ast.Import, ast.ImportFrom, ast.Pass)) for b in st.body):
+            # `if TYPE_CHECKING: <imports> else/elif: ...` is abstracted as the block followed by a compound statement
+            # holding what the other branches import (nothing is ever inserted between two non-import statements)
+            out.append("SIfTC %s" % coq_list(reify_imp(b) for b in st.body if not isinstance(b, ast.Pass)))
+            body = []
+            for b in st.orelse:
+                if isinstance(b, (ast.Import, ast.ImportFrom)):
+                    body.append(("CRun", b))
+                else:
+                    _nested_imports(b, "CRun", body)
+            out.append("SComp %s %s" % (_tok(st), coq_list(f"({c}, {reify_imp(i)})" for c, i in body)))
         elif isinstance(st, ast.ClassDef):
             body = []
             _nested_imports(st, "CLocal", body)
